@@ -151,7 +151,7 @@ pub fn init(result_path: &std::path::Path, step_timeout_s: u32) {
         verdict: "@@V@@".into(),
         sig,
         detail: format!(
-            "expected the call to return Ok or Err; observed verdict in `verdict`: hang = no return within {} s of CPU time, abort = SIGABRT (allocation failure under the 4 GiB address-space limit, or a panic while panicking), sigsegv/sigbus = memory fault; the call is named by sig.phase / sig.where",
+            "expected the call to return Ok or Err; observed verdict in `verdict`: hang = no return within {} s of CPU time, abort = SIGABRT (allocation failure under the 1 GiB address-space limit, or a panic while panicking), sigsegv/sigbus = memory fault; the call is named by sig.phase / sig.where",
             step_timeout_s
         ),
         case: serde_json::Value::String("@@C@@".into()),
